@@ -65,6 +65,12 @@ def _child(ctx, step, wfd, outp, errp):
     cwd = step.get("cwd", ".")
     os.chdir(os.path.normpath(os.path.join(ctx["root"], cwd)))
     sim = seams.install(cfg)
+    if step.get("nofile"):
+        # a small descriptor table (ulimit -n): code that forgets to close what it opens runs into EMFILE
+        import resource
+        hard = resource.getrlimit(resource.RLIMIT_NOFILE)[1]
+        resource.setrlimit(resource.RLIMIT_NOFILE, (int(step["nofile"]), hard))
+        sim.fired.append(f"rlimit-nofile:{int(step['nofile'])}|<process>")
     probes.arm(sim)
     result = {"exit": None, "exc": None, "crashed": False}
 
